@@ -411,15 +411,24 @@ func (s *ReverseInnerSearcher) Find(haystack []byte) *Match {
 //   - Early termination on the first confirmed candidate
 //   - Anti-quadratic guards, see findCandidate
 func (s *ReverseInnerSearcher) IsMatch(haystack []byte) bool {
+	return s.IsMatchWithCaches(haystack, nil, nil)
+}
+
+// IsMatchWithCaches is IsMatch with the DFA caches provided by the caller (the
+// pooled SearchState of the engine); if one is nil both are taken from the
+// searcher's own pools.
+func (s *ReverseInnerSearcher) IsMatchWithCaches(haystack []byte, fwdCache, revCache *lazy.DFACache) bool {
 	if len(haystack) == 0 {
 		return false
 	}
 
-	// Acquire caches once for the entire candidate loop
-	revCache := s.revCachePool.Get().(*lazy.DFACache)
-	fwdCache := s.fwdCachePool.Get().(*lazy.DFACache)
-	defer s.revCachePool.Put(revCache)
-	defer s.fwdCachePool.Put(fwdCache)
+	if fwdCache == nil || revCache == nil {
+		// Acquire caches once for the entire candidate loop
+		revCache = s.revCachePool.Get().(*lazy.DFACache)
+		fwdCache = s.fwdCachePool.Get().(*lazy.DFACache)
+		defer s.revCachePool.Put(revCache)
+		defer s.fwdCachePool.Put(fwdCache)
+	}
 
 	pos, _, _, _ := s.findCandidate(haystack, 0, fwdCache, revCache, true)
 	if pos == candidateGiveUp {
